@@ -39,6 +39,15 @@ CLAIMED = {
             "select, asyncio, tornado, twisted, zmq and trio loops on TLC-generated and random scenarios is judged by the same monitor.",
             "Trusted: TLC, vf/loops.py environment doubles (clock, selector, poller, trio instrument), scenario runner. glib loop not importable.",
             "DESIGN.md §4 C13"),
+    "C12": ("TLA+ monitor MainLoopOps.tla (input order, redraw-before-wait, exception outcome, terminal modes via Terminal.tla); design model "
+            "MainLoop.tla (sessions x fault points x the two ways out of _run) model-checked by TLC, wrong designs refuted; TLC trace validation "
+            "(MainLoopTrace.tla) of forked real sessions: real pty + raw Screen + MainLoop on each of six event loops under virtual time with "
+            "an exception injected at a chosen callback invocation",
+            "TLC enumerates all bounded sessions and fault points of the MainLoop design and checks order, redraw, outcome and restoration; each "
+            "real session's callbacks, waits, outcome, the bytes written to the pty (interpreted by the TLA+ terminal for mode restoration), termios "
+            "and signal handlers are judged by the same monitor.",
+            "Trusted: TLC, Terminal.tla mode tracking, vf/loops.py doubles, the forked session runner, vf/term.py tokeniser.",
+            "DESIGN.md §4 C12"),
 }
 
 NOT_APPLICABLE = {}
